@@ -222,7 +222,7 @@ theorem plural_not_listProp (name : String) (hn : pluralNames.contains name = tr
 /-- assigning a plural name to a non-empty term list is the distribution `setPlural` -/
 theorem termList_setattr_plural (l : TermList) (name : String) (v : Tree) (hn : pluralNames.contains name = true)
     (hl : l.hasTerms = true) :
-    l.setattr name v = (setPlural l.terms name v).map (fun ts => { l with terms := ts }) := by
+    l.setattr name v = (setPlural l.terms name v).map (fun ts => { d := ddel l.d name, terms := ts }) := by
   have h1 : ¬ name ∈ listPropNames := by simpa using plural_not_listProp name hn
   have h2 : name ∈ pluralNames := by simpa using hn
   simp [TermList.setattr, h1, h2, hl]
@@ -255,6 +255,96 @@ theorem gam_fit_spec (g g' : Gam) (data : List FeatData) (h : g.fit data = .ok g
 theorem handOver_nil (l : TermList) : handOver [] l = .ok l := rfl
 theorem handOver_cons (k : String) (v : Tree) (r : List (String × Tree)) (l : TermList) :
     handOver ((k, v) :: r) l = l.setattr k v >>= handOver r := rfl
+
+/-! ## assignment on a GAM that already has terms -/
+
+theorem distR_length {τ : Type} (skip : τ → Bool) (arity : τ → Except Err Nat) (setOne : τ → Tree → Except Err τ)
+    (rs : List τ) : ∀ (vals : List Sc) (rs' : List τ), distR skip arity setOne rs vals = .ok rs' → rs'.length = rs.length := by
+  induction rs with
+  | nil => intro vals rs' h; simp only [distR, Except.ok.injEq] at h; subst h; rfl
+  | cons t ts ih =>
+    intro vals rs' h
+    simp only [distR] at h
+    split at h
+    · simp only [bind, Except.bind] at h
+      cases hr : distR skip arity setOne ts vals with
+      | error e => simp [hr] at h
+      | ok r => simp only [hr, Except.ok.injEq] at h; subst h; simp [ih vals r hr]
+    · simp only [bind, Except.bind] at h
+      cases ha : arity t with
+      | error e => simp [ha] at h
+      | ok n =>
+        simp only [ha] at h
+        split at h
+        · simp at h
+        · cases hso : setOne t (packVals (vals.drop (vals.length - n))) with
+          | error e => simp [hso] at h
+          | ok t' =>
+            simp only [hso] at h
+            cases hr : distR skip arity setOne ts (vals.take (vals.length - n)) with
+            | error e => simp [hr] at h
+            | ok r => simp only [hr, Except.ok.injEq] at h; subst h; simp [ih _ r hr]
+
+theorem setPlural_length (ts ts' : List Term) (name : String) (v : Tree) (h : setPlural ts name v = .ok ts') :
+    ts'.length = ts.length := by
+  unfold setPlural setPluralSized setSeq at h
+  simp only [bind, Except.bind] at h
+  split at h
+  · simp at h
+  · rename_i vs _
+    cases hr : distR Term.isIntercept (Term.arity name) (Term.setOne name) ts.reverse vs with
+    | error e => simp [hr] at h
+    | ok r =>
+      simp only [hr, Except.ok.injEq] at h
+      subst h
+      simp [distR_length _ _ _ _ _ _ hr]
+
+theorem ownGet_ownDel (o : List (String × Tree)) (k : String) : ownGet (ownDel o k) k = none := by
+  induction o with
+  | nil => rfl
+  | cons p r ih =>
+    obtain ⟨a, b⟩ := p
+    simp only [ownDel, ownGet] at ih ⊢
+    rw [List.filter_cons]
+    by_cases h : a = k
+    · subst h; simpa using ih
+    · have hk : (k == a) = false := by simpa using (fun e : k = a => h e.symm)
+      simp only [ne_eq, h, not_false_eq_true, decide_true, if_true, List.lookup, hk]
+      exact ih
+
+/-- assignment to a model that has terms: a keyword of that name stored by the constructor is dropped, the value
+goes to the terms, and `getattr` reads it back from the terms (scalar broadcast) -/
+theorem gam_setattr_spec (g g' : Gam) (l : TermList) (name : String) (v : Tree)
+    (hn : pluralNames.contains name = true) (hl : g.termList? = some l) (hv : ∀ t ∈ l.terms, TermValid t)
+    (h : g.setattr name v = .ok g') :
+    ownGet g'.own name = none ∧
+      ∃ t, g'.getattr name = .ok t ∧ t.flat = expected (getPlural l.terms name).flatSize v := by
+  unfold Gam.setattr at h
+  simp only [hn, Bool.not_true, Bool.false_eq_true, if_false, hl, bind, Except.bind] at h
+  cases hs : setPlural l.terms name v with
+  | error e => simp [hs] at h
+  | ok ts =>
+    simp only [hs, Except.ok.injEq] at h
+    subst h
+    have hlen := setPlural_length _ _ _ _ hs
+    have hne : l.hasTerms = true := by
+      unfold Gam.termList? at hl
+      split at hl
+      · split at hl
+        · rename_i hh; cases hl; exact hh
+        · cases hl
+      · cases hl
+    have hne' : ({ l with terms := ts } : TermList).hasTerms = true := by
+      simp only [TermList.hasTerms, Bool.not_eq_true'] at hne ⊢
+      cases hts : ts with
+      | nil =>
+        rw [hts] at hlen
+        have : l.terms = [] := List.eq_nil_of_length_eq_zero hlen.symm
+        rw [this] at hne; cases hne
+      | cons x xs => rfl
+    refine ⟨ownGet_ownDel _ _, getPlural ts name, ?_, (setPlural_spec name hn l.terms hv v ts hs).1⟩
+    have hn' : name ∈ pluralNames := by simpa using hn
+    simp [Gam.getattr, ownGet_ownDel, Gam.termList?, hne', hn']
 
 /-! ## compiled tensor terms -/
 
@@ -290,9 +380,9 @@ theorem compileAtoms_info (data : List FeatData) (ms cs : List Atom) (hc : ∀ m
 
 /-- tensor terms: the term rebuilt from the info of the compiled term and compiled on the same data is the
 compiled term -/
-theorem tensor_rebuild_compiled (args : List TeArg) (by_ : Val) (kw : List (String × Tree)) (d : Dict)
+theorem tensor_rebuild_compiled (args : List TeArg) (by_ vb : Val) (kw : List (String × Tree)) (d : Dict)
     (ms : List Atom) (data : List FeatData) (c : Term)
-    (h : mkTensor args by_ (vbool false) kw = .ok (.tensor d ms)) (hm : ∀ m ∈ ms, Constructed m)
+    (h : mkTensor args by_ vb kw = .ok (.tensor d ms)) (hm : ∀ m ∈ ms, Constructed m)
     (hc : compileTerm data (.tensor d ms) = .ok c) :
     ∃ t', Term.fromInfo c.info = .ok t' ∧ compileTerm data t' = .ok c := by
   refine ⟨.tensor d ms, ?_, hc⟩
@@ -309,7 +399,28 @@ theorem tensor_rebuild_compiled (args : List TeArg) (by_ : Val) (kw : List (Stri
       have e := compileAtoms_info data ms cs hm h1
       have : (Term.tensor d cs).info = (Term.tensor d ms).info := by simp [Term.info, e]
       rw [this]
-      exact tensor_roundtrip args by_ kw d ms h (fun m hmm => constructed_roundTrips m (hm m hmm))
+      exact tensor_roundtrip args by_ vb kw d ms h (fun m hmm => constructed_roundTrips m (hm m hmm))
+
+/-- a term list made by `TermList(...)` / `+` is rebuilt identically (terms, order, and `verbose`) from its info -/
+theorem termList_roundtrip_full (args : List (Term ⊕ List Term)) (v : Bool)
+    (h : ∀ t ∈ (TermList.mk' args v).terms, Term.fromInfo t.info = .ok t) :
+    TermList.fromInfo (TermList.mk' args v).info = .ok (TermList.mk' args v) := by
+  have hn : (((TermList.mk' args v).terms).map Term.key).Nodup := by
+    simp only [TermList.mk', mkList, dedup_eq_keepNew]; exact keepNew_nodup Term.key [] _
+  have hfix : mkList Term.key ((TermList.mk' args v).terms.map Sum.inl) = (TermList.mk' args v).terms := by
+    simp only [mkList, flattenArgs_inl, dedup_eq_keepNew]
+    exact keepNew_of_nodup Term.key [] _ hn (by simp)
+  simp only [TermList.fromInfo, TermList.info, termsFromInfo_map _ h, bind, Except.bind]
+  have hverb : (dget (TermList.mk' args v).d "verbose").getD vnone
+      = vbool ((mkList Term.key args).any (fun t => ((dget t.dict "verbose").getD vnone).truthy) || v) := by
+    simp +decide [TermList.mk', dget, List.lookup]
+  rw [hverb]
+  have : (TermList.mk' args v).terms = mkList Term.key args := rfl
+  rw [this] at hfix
+  have ht : ∀ b : Bool, (vbool b).truthy = b := fun b => rfl
+  simp only [TermList.mk', hfix, ht]
+  generalize (mkList Term.key args).any (fun t => ((dget t.dict "verbose").getD vnone).truthy) = A
+  cases A <;> cases v <;> rfl
 
 /-- `e` succeeded with the value `x` (decidable form, for the concrete examples) -/
 def okWith {α : Type} [DecidableEq α] (e : Except Err α) (x : α) : Bool :=
